@@ -35,7 +35,13 @@ Defaults == [retries |-> 1, wait |-> 0, conc |-> 0, mode |-> 0, prep |-> 0, exec
 Steps(kind) == {[param |-> p, form |-> f, val |-> v] : p \in Params, f \in Forms, v \in {0, 1, 2, 3}}
 
 \* a well-formed step for this kind of node
-StepOK(kind, s) == Offered(kind, s.param, s.form) /\ s.val \in ValuesOf(s.param)
+\* a function parameter can also be set to "no function" (nil) - in the Result style, where the setter stores the function as
+\* it is: the parameter is back at its default, in both forms (the Any-style setters wrap their argument and cannot take nil)
+NilOK(kind, s) == /\ s.param \in {"prep", "exec", "post", "fb"} /\ s.val = 0 /\ kind = "node"
+                  /\ "sty" \in DOMAIN s /\ s.sty \in {"r", "n"} /\ s.form \in {"opt", "bld"}
+\* retries value 4 stands for a budget beyond 32 bits ("retry until it works"): a value like any other
+BigOK(kind, s) == s.param = "retries" /\ s.val = 4 /\ kind = "node"
+StepOK(kind, s) == Offered(kind, s.param, s.form) /\ (s.val \in ValuesOf(s.param) \/ NilOK(kind, s) \/ BigOK(kind, s))
 
 \* constructor options come first (in their own order), then everything else in order:
 \* the effective order of a step sequence
@@ -75,7 +81,7 @@ StyleOK(k, s) == IF s.param = "prep" /\ k = "node" THEN s.sty \in {"r", "a", "ar
                  ELSE IF s.param \in {"retries", "wait", "conc", "mode"} /\ s.form = "opt" THEN s.sty \in {"r", "f"}
                  ELSE IF s.param = "fb" THEN s.sty \in {"r", "n"}       \* "n": the fallback is kept in a named function type
                  ELSE s.sty = "r"
-CfgNext == \E p \in Params : \E f \in Forms : \E v \in {0, 1, 2, 3} : \E y \in {"r", "a", "f", "n", "ar"} :
+CfgNext == \E p \in Params : \E f \in Forms : \E v \in {0, 1, 2, 3, 4} : \E y \in {"r", "a", "f", "n", "ar"} :
               StyleOK(kind, [param |-> p, form |-> f, sty |-> y]) /\ AddStep([param |-> p, form |-> f, val |-> v, sty |-> y])
 CfgSpec == CfgInit /\ [][CfgNext]_cvars
 
@@ -116,7 +122,7 @@ C19_Failing(c, h) ==
        (IF p.panicked THEN {"probePanicked"} ELSE {})
        \cup (IF p.retries = gexp.retries /\ p.wait = gexp.wait /\ p.conc = gexp.conc /\ p.mode = gexp.mode THEN {} ELSE {"getters"})
        \cup (IF p.prepfn = exp.prep /\ p.postfn = exp.post /\ (execObservable => p.execfn = exp.exec)
-                /\ ((c.kind = "node" /\ execObservable) => p.fbfn = exp.fb) THEN {} ELSE {"functionsInstalled"})
+                /\ ((c.kind = "node" /\ execObservable /\ exp.retries # 4) => p.fbfn = exp.fb) THEN {} ELSE {"functionsInstalled"})
        \* what post is handed as the prep value does not depend on the form in which the prep function was installed: a
        \* string for the probe's ordinary prep functions, the flyt.Result itself when an any-based prep returns one
        \cup (LET ps == SelectSeq(Effective(all), LAMBDA s : s.param = "prep") IN
@@ -124,7 +130,8 @@ C19_Failing(c, h) ==
                 /\ p.prepkind # (IF ps[Len(ps)].sty = "ar" THEN "result" ELSE "string")
              THEN {"prepValueAsInstalled"} ELSE {})
        \* behaviour of the probe runs: attempts on an always-failing exec, concurrency high-water mark, stop/continue
-       \cup (IF execObservable /\ p.attempts # exp.retries THEN {"behaviourRetries"} ELSE {})
+       \* (under the budget beyond 32 bits the probe's failing exec gives in at its fifth attempt)
+       \cup (IF execObservable /\ p.attempts # (IF exp.retries = 4 THEN 5 ELSE exp.retries) THEN {"behaviourRetries"} ELSE {})
        \cup (IF exp.retries = 0 /\ p.attempts # 0 THEN {"behaviourRetries"} ELSE {})
        \cup (IF c.kind = "batch" /\ execObservable /\ p.hwm # (IF exp.conc > 0 THEN exp.conc ELSE 1) THEN {"behaviourConcurrency"} ELSE {})
        \* (continue mode: every item is executed; stop mode: with at most one worker nothing after the failing first item is -
